@@ -402,20 +402,34 @@ structure CacheWF (c : Cache) : Prop where
     | some (left, size) => 0 ≤ left ∧ 0 < size ∧ left ≤ maxInt64
     | none => True
   contig : match c.rdb, c.aof with
-    | some (left, _), some (l, _) => l = left          -- the log starts at the snapshot's offset
+    -- disk: the log starts at the snapshot's offset (the collector removes the snapshot
+    -- before any log segment; a gap image after a crash is truncated at load: C08).
+    -- memory: the collector drops the oldest log segments and keeps the snapshot, so the
+    -- log may start later; the snapshot's own offset is then no longer valid (a3509d3)
+    | some (left, _), some (l, _) => if c.backend = .disk then l = left else left ≤ l
     | _, _ => True
   label : (c.runId = [] ∨ c.runId = qId) → c.rdb = none ∧ c.aof = none   -- data only under a real id
 
-/-- what C05/C08 provide: the bytes held under `runId` are `hist runId`, and the
-    snapshot held is a snapshot at `left` of a history agreeing with `runId`'s
-    below `left`. -/
-structure CacheOK (w : World) (c : Cache) (d : CData) : Prop where
+/-- the cached bytes are history `h`'s: the log bytes on the range held, and the
+    snapshot held is a snapshot at `left` of a history agreeing with `h` below `left` -/
+structure Holds (w : World) (h : Id) (c : Cache) (d : CData) : Prop where
   aof_hist : match c.aof with
-    | some (l, r) => ∀ n, l ≤ n → n < r → d.aofByte n = w.hist c.runId n
+    | some (l, r) => ∀ n, l ≤ n → n < r → d.aofByte n = w.hist h n
     | none => True
   rdb_tok : match c.rdb with
-    | some (left, _) => d.rdbTok.2 = left ∧ ∀ n, 0 ≤ n → n < left → w.hist d.rdbTok.1 n = w.hist c.runId n
+    | some (left, _) => d.rdbTok.2 = left ∧ ∀ n, 0 ≤ n → n < left → w.hist d.rdbTok.1 n = w.hist h n
     | none => True
+
+/-- what the cache must satisfy for the source it is used against: under the
+    current id it holds the current history; under the previous id it holds the
+    previous history — or already the current one (a continuation granted by a
+    source that had failed over between INFO and PSYNC leaves the label the INFO
+    reported). A cache under any other label is never read (`syncMeta` clears it).
+    (C05/C08: the bytes held are the bytes written; that the bytes written under a
+    label are that history's is `cache_consistent_after` / `reach_inv` here.) -/
+structure CacheOK (w : World) (s : Source) (c : Cache) (d : CData) : Prop where
+  cur : c.runId = s.id1 → Holds w s.id1 c d
+  prev : c.runId = s.id2 → Holds w s.id2 c d ∨ Holds w s.id1 c d
 
 /-- PSYNC2: the previous history agrees with the current one below the switch offset -/
 def Agree (w : World) (s : Source) : Prop :=
@@ -492,6 +506,26 @@ def Truthful (w : World) (s : Source) (t : Tgt) (c : Cache) : Prop :=
         (t.stored.runId = s.id2 ∧ t.stored.runId ≠ s.id1 ∧
           AgreeBelow w tid s.id2 t.stored.offset ∧ NotYetCurrent s c))
 
+/-! ## 7b. The collector, seen from the cache description
+
+  What one pass of the size-triggered collector (pkg/store ds.go `gcLogs`,
+  syncer/memory_channel.go `gcLocked`) may do to what the cache reports: it never
+  changes the label, removes the snapshot or not, and removes a prefix of the log
+  (oldest segments: closed, unreferenced, never the writer's current one) — the
+  newest offset stays. On disk the snapshot goes before any log segment; in memory
+  the log segments go first and the snapshot stays offered (its own offset is then
+  no longer valid). `GunYu.Proofs.PsyncStore` shows that C05's concrete collectors
+  (`Store.Disk.gc`, `Store.Mem.gc`) are instances. -/
+
+structure Collected (c c' : Cache) : Prop where
+  backend : c'.backend = c.backend
+  runId : c'.runId = c.runId
+  rdb : c'.rdb = c.rdb ∨ c'.rdb = none
+  aof : match c.aof with
+    | none => c'.aof = none
+    | some (l, r) => c'.aof = none ∨ ∃ l', c'.aof = some (l', r) ∧ l ≤ l' ∧ l' ≤ r
+  diskOrder : c.backend = .disk → c'.aof ≠ c.aof → c'.rdb = none
+
 /-! ## 8. Sequences of connections -/
 
 /-- source, target bookkeeping + truth, cache description and cache bytes -/
@@ -529,11 +563,161 @@ inductive Reach (w : World) : Sys → Prop
       s'.id1 = σ.s.id1 → s'.id2 = σ.s.id2 → Reach w ⟨s', σ.t, σ.c, σ.d⟩
   | change (σ : Sys) (s' : Source) : Reach w σ → SourceWF s' → Agree w s' →
       s'.id1 ≠ σ.t.stored.runId → s'.id1 ≠ σ.c.runId →
-      (s'.id2 = σ.t.stored.runId → σ.t.stored.runId = σ.s.id1) → Reach w ⟨s', σ.t, σ.c, σ.d⟩
-  | cache (σ : Sys) (c' : Cache) (d' : CData) : Reach w σ → CacheWF c' → CacheOK w c' d' →
+      (s'.id2 = σ.t.stored.runId → σ.t.stored.runId = σ.s.id1) →
+      (s'.id2 = σ.c.runId → σ.c.runId = σ.s.id1) → Reach w ⟨s', σ.t, σ.c, σ.d⟩
+  | cache (σ : Sys) (c' : Cache) (d' : CData) : Reach w σ → CacheWF c' → CacheOK w σ.s c' d' →
       (NotYetCurrent σ.s σ.c → NotYetCurrent σ.s c') → Reach w ⟨σ.s, σ.t, c', d'⟩
   | forget (σ : Sys) (sp' : SP) : Reach w σ →
       ((sp'.runId ≠ σ.s.id1 ∧ sp'.runId ≠ σ.s.id2) ∨ sp'.offset < 0) →
       Reach w ⟨σ.s, ⟨sp', σ.t.truth⟩, σ.c, σ.d⟩
+
+/-! ## 9. The retry loop (`RedisInput.Run`)
+
+  `Run` repeats `run` until told to stop: every attempt dials, asks INFO, reads
+  the output's start point, sends PSYNC, then `syncMeta`'s bookkeeping in this
+  order — `channel.DelRunId` (FULLRESYNC or `clearLocal`), `channel.SetRunId`,
+  `output.ResetStartPoint` (FULLRESYNC), `output.SetRunId` — then creates the
+  writer, the reader, and `Send` delivers. Any of these calls can fail; what was
+  done stays done. An attempt that ends with `ErrCorrupted` is followed by
+  `channel.DelRunId(channel.RunId())` before the next one. -/
+
+/-- how far an attempt got -/
+inductive Stage
+  | early                                   -- dial / INFO / output.StartPoint / PSYNC failed: nothing changed
+  | cleared                                 -- channel.DelRunId done (if due), channel.SetRunId failed
+  | relabelled                              -- channel.SetRunId done, the next call on the output failed
+  | reset                                   -- output.ResetStartPoint done (if due), output.SetRunId failed
+  | metaDone                                -- `syncMeta` complete, no writer yet
+  | written (k : Int)                       -- the writer stored `k` stream bytes, nothing was delivered
+  | delivered (done : Bool) (e k : Int)     -- the reader delivered (`done`, `e` as in `step`), `k` bytes stored
+
+/-- `output.ResetStartPoint` alone -/
+def Tgt.afterReset (t : Tgt) : Tgt := { t with stored := SP.initial }
+
+/-- the state an attempt leaves, by how far it got -/
+def attempt (resume : Bool) (w : World) (σ : Sys) : Stage → Sys
+  | .early => σ
+  | .cleared =>
+    if (syncMeta σ.s σ.t.stored σ.c).deleted then ⟨σ.s, σ.t, σ.c.delRunId σ.c.runId, CData.empty⟩ else σ
+  | .relabelled =>
+    let m := syncMeta σ.s σ.t.stored σ.c
+    ⟨σ.s, σ.t, m.cache, if m.deleted then CData.empty else σ.d⟩
+  | .reset =>
+    let m := syncMeta σ.s σ.t.stored σ.c
+    ⟨σ.s, if m.ps.full then σ.t.afterReset else σ.t, m.cache, if m.deleted then CData.empty else σ.d⟩
+  | .metaDone =>
+    let m := syncMeta σ.s σ.t.stored σ.c
+    ⟨σ.s, σ.t.afterMeta resume m, m.cache, if m.deleted then CData.empty else σ.d⟩
+  | .written k =>
+    let r := run w σ.s σ.t.stored σ.c σ.d
+    ⟨σ.s, σ.t.afterMeta resume r.mt, cacheAfter r.mt k, r.data⟩
+  | .delivered done e k =>
+    let r := run w σ.s σ.t.stored σ.c σ.d
+    ⟨σ.s, step resume w σ.s σ.t σ.c σ.d done e, cacheAfter r.mt k, r.data⟩
+
+/-- `Run` after `ErrCorrupted`: `channel.DelRunId(channel.RunId())` -/
+def Sys.corrupted (σ : Sys) : Sys := ⟨σ.s, σ.t, σ.c.delRunId σ.c.runId, CData.empty⟩
+
+/-- the bytes stored by a stage stay within int64 -/
+def Stage.fits (s : Source) : Stage → Prop
+  | .written k => 0 ≤ k ∧ s.masterOff + k ≤ maxInt64
+  | .delivered _ _ k => 0 ≤ k ∧ s.masterOff + k ≤ maxInt64
+  | _ => True
+
+/-! ### the source fails over between INFO and PSYNC
+
+  INFO was answered by `sI` (ids `A = sI.id1`, `sI.id2`), PSYNC is answered by
+  `sP`, whose previous id is `A` and whose current id `B` is new. The decision is
+  taken with INFO's ids; a request under `A` is admitted by `sP` as its previous
+  id (up to its switch offset), `+CONTINUE B` is "corrected" to `A` (input.go
+  "correct run id"), and the bytes that follow are `B`'s. On FULLRESYNC the reply's
+  id `B` is used. Seen from the attempt this is a source with INFO's ids whose
+  backlog ends at `sP`'s switch offset and whose history under `A` is `B`'s
+  (`mix`, `viewWorld`; `mix_admits` shows its answers are `sP`'s). -/
+
+def mix (sI sP : Source) : Source :=
+  let ok : Bool := sP.backlog && decide (sP.backlogFirst ≤ sP.switchOff + 1)
+  let len : Int := if sP.backlogFirst + sP.backlogLen ≤ sP.switchOff + 1 then sP.backlogLen
+                   else sP.switchOff + 1 - sP.backlogFirst
+  { id1 := sI.id1, id2 := sI.id2, switchOff := -2, backlog := ok, backlogFirst := sP.backlogFirst,
+    backlogLen := if ok then len else 0, masterOff := if ok then sP.backlogFirst + len - 1 else 0,
+    snapLen := sP.snapLen, capaId := sP.capaId }
+
+def viewWorld (w : World) (sI sP : Source) : World :=
+  ⟨fun id n => if id = sI.id1 then w.hist sP.id1 n else w.hist id n, w.snap⟩
+
+/-- an attempt whose PSYNC is answered FULLRESYNC by `s`, whatever made it so -/
+def fullAttempt (resume : Bool) (w : World) (s : Source) (σ : Sys) : Stage → Sys
+  | .early => ⟨s, σ.t, σ.c, σ.d⟩
+  | .cleared => ⟨s, σ.t, σ.c.delRunId σ.c.runId, CData.empty⟩
+  | .relabelled => ⟨s, σ.t, ⟨σ.c.backend, s.id1, none, none⟩, CData.empty⟩
+  | .reset => ⟨s, σ.t.afterReset, ⟨σ.c.backend, s.id1, none, none⟩, CData.empty⟩
+  | .metaDone =>
+    ⟨s, ⟨if resume then ⟨s.id1, -1⟩ else SP.initial, σ.t.truth⟩, ⟨σ.c.backend, s.id1, none, none⟩, CData.empty⟩
+  | .written k =>
+    ⟨s, ⟨if resume then ⟨s.id1, -1⟩ else SP.initial, σ.t.truth⟩,
+      ⟨σ.c.backend, s.id1, some (s.masterOff, s.snapLen), if k > 0 then some (s.masterOff, s.masterOff + k) else none⟩,
+      ⟨fun n => w.hist s.id1 n, (s.id1, s.masterOff)⟩⟩
+  | .delivered done _ k =>
+    ⟨s, if done then ⟨⟨s.id1, s.masterOff⟩, .at s.id1 s.masterOff⟩ else ⟨SP.initial, .dirty⟩,
+      ⟨σ.c.backend, s.id1, some (s.masterOff, s.snapLen), if k > 0 then some (s.masterOff, s.masterOff + k) else none⟩,
+      ⟨fun n => w.hist s.id1 n, (s.id1, s.masterOff)⟩⟩
+
+/-- an attempt that asked INFO of `σ.s` and PSYNC of `sP` -/
+def staleAttempt (resume : Bool) (w : World) (σ : Sys) (sP : Source) (st : Stage) : Sys :=
+  let sv := mix σ.s sP
+  let wv := viewWorld w σ.s sP
+  let r := run wv sv σ.t.stored σ.c σ.d
+  if r.mt.ps.full then fullAttempt resume w sP σ st
+  else match st with
+    | .delivered done e k => ⟨sP, (σ.t.afterMeta resume r.mt).afterSend resume sP r done e, cacheAfter r.mt k, r.data⟩
+    | st => { attempt resume wv ⟨sv, σ.t, σ.c, σ.d⟩ st with s := sP }
+
+/-- Everything the loop can reach: attempts of either kind that get as far as any
+    stage (optionally ending with `ErrCorrupted`); attempts answered FULLRESYNC by
+    any source under a new id (`fullBy`: PSYNC answered by a source unrelated to, or
+    more than one failover away from, the one that answered INFO); with, in
+    between, the source changing (`same`, `change` as in `Reach`), one pass of the
+    collector (`gc`), the cache being lost or replaced (`cache`), the stored
+    position being lost (`forget`: a restart in in-memory mode, a deleted
+    checkpoint; a restart in resume mode is no transition). -/
+inductive Loop (w : World) : Sys → Prop
+  | init (s : Source) (be : Backend) : SourceWF s → Agree w s →
+      Loop w ⟨s, ⟨SP.initial, .none⟩, ⟨be, [], none, none⟩, CData.empty⟩
+  | attempt (σ : Sys) (resume : Bool) (st : Stage) (corrupted : Bool) : Loop w σ → st.fits σ.s →
+      Loop w (if corrupted then (attempt resume w σ st).corrupted else attempt resume w σ st)
+  | stale (σ : Sys) (sP : Source) (resume : Bool) (st : Stage) (corrupted : Bool) : Loop w σ →
+      SourceWF sP → Agree w sP → sP.id2 = σ.s.id1 → sP.id1 ≠ σ.s.id1 → sP.id1 ≠ σ.s.id2 →
+      sP.id1 ≠ σ.t.stored.runId → sP.id1 ≠ σ.c.runId → st.fits sP →
+      Loop w (if corrupted then (staleAttempt resume w σ sP st).corrupted else staleAttempt resume w σ sP st)
+  | fullBy (σ : Sys) (s' : Source) (resume : Bool) (st : Stage) (corrupted : Bool) : Loop w σ →
+      SourceWF s' → Agree w s' → s'.id1 ≠ σ.t.stored.runId → s'.id1 ≠ σ.c.runId →
+      (s'.id2 = σ.t.stored.runId → σ.t.stored.runId = σ.s.id1) →
+      (s'.id2 = σ.c.runId → σ.c.runId = σ.s.id1) → st.fits s' →
+      Loop w (if corrupted then (fullAttempt resume w s' σ st).corrupted else fullAttempt resume w s' σ st)
+  | same (σ : Sys) (s' : Source) : Loop w σ → SourceWF s' → Agree w s' →
+      s'.id1 = σ.s.id1 → s'.id2 = σ.s.id2 → Loop w ⟨s', σ.t, σ.c, σ.d⟩
+  | change (σ : Sys) (s' : Source) : Loop w σ → SourceWF s' → Agree w s' →
+      s'.id1 ≠ σ.t.stored.runId → s'.id1 ≠ σ.c.runId →
+      (s'.id2 = σ.t.stored.runId → σ.t.stored.runId = σ.s.id1) →
+      (s'.id2 = σ.c.runId → σ.c.runId = σ.s.id1) → Loop w ⟨s', σ.t, σ.c, σ.d⟩
+  | gc (σ : Sys) (c' : Cache) : Loop w σ → Collected σ.c c' → Loop w ⟨σ.s, σ.t, c', σ.d⟩
+  | cache (σ : Sys) (c' : Cache) (d' : CData) : Loop w σ → CacheWF c' → CacheOK w σ.s c' d' →
+      (NotYetCurrent σ.s σ.c → NotYetCurrent σ.s c') → Loop w ⟨σ.s, σ.t, c', d'⟩
+  | forget (σ : Sys) (sp' : SP) : Loop w σ →
+      ((sp'.runId ≠ σ.s.id1 ∧ sp'.runId ≠ σ.s.id2 ∧ sp'.runId ≠ qId) ∨ sp'.offset < 0) →
+      Loop w ⟨σ.s, ⟨sp', σ.t.truth⟩, σ.c, σ.d⟩
+
+/-- "?" is only ever stored with a negative offset (`StartPoint.Initialize`, an empty checkpoint) -/
+def SpWF (sp : SP) : Prop := sp.runId = qId → sp.offset < 0
+
+/-- what holds in every state the loop reaches: the hypotheses of the single-connection theorems -/
+structure Inv (w : World) (σ : Sys) : Prop where
+  src : SourceWF σ.s
+  agree : Agree w σ.s
+  cwf : CacheWF σ.c
+  cok : CacheOK w σ.s σ.c σ.d
+  tr : Truthful w σ.s σ.t σ.c
+  sp : SpWF σ.t.stored
 
 end GunYu.Psync
